@@ -21,3 +21,13 @@ func init() {
 		return obs
 	}}
 }
+
+func init() {
+	Props["XWIRE"] = PropDef{Explanation: "debug: all wire pairs", Run: func(c *Ctx) []core.Ob {
+		return c.WireSym(func(string, string) bool { return true })
+	}}
+}
+
+func init() {
+	Props["XSCHEMA"] = PropDef{Explanation: "debug: schema", Run: func(c *Ctx) []core.Ob { return c.Schema() }}
+}
